@@ -508,7 +508,7 @@ CaseRecord(f) ==
       base0 == [k |-> "net", u |-> U, mono |-> (U \in {"c01", "c01d", "c05", "rand"}), rules |-> [i \in DOMAIN L |-> RuleText(L[i])], tags |-> T,
                v |-> iv, csp |-> ic,
                \* check_network_request_subset under the three other flag combinations (universes c01 and c07)
-               subset |-> IF U \in {"c01", "c07", "rand"}
+               subset |-> IF U \in {"c01", "c07", "c14", "rand"}
                           THEN [q \in DOMAIN Reqs |->
                                   [fl \in {<<TRUE, FALSE>>, <<FALSE, TRUE>>, <<TRUE, TRUE>>} |->
                                      UNION {VerdictsSubset(L, hv, T, Res, Reqs[q], fl[1], fl[2]) :
